@@ -23,6 +23,13 @@ Gate engine (harness/c06_gate.py, spec/SandboxGate.tla): the graph above is extr
    (object x name x get/set x same invocation / later #invoke / later page); TLC enumerates
    every history up to a bound over the Python objects found in the live sandbox, each is
    run in a fresh context; random longer histories are replayed by TLC.
+Load engine (harness/c06_load.py, spec/SandboxReachLoad.tla): both engines above take the environment of
+   a NORMALLY loaded module as the root.  Third model: HOW page-supplied source comes to run - the
+   loader (compile -> bind with setfenv -> cache -> run; caches with three lifetimes) over entry point
+   x SHAPE OF THE SOURCE (BOM, '#!' line, binary signature, NUL, CR/CRLF, compile failures, what the
+   chunk returns) x history of loads; TLC enumerates every case with the demanded outcome, each is
+   executed with a probe body that reports from the inside which forbidden names it sees, and the
+   Python side reads the real global table of the runtime.
 """
 from __future__ import annotations
 
@@ -39,6 +46,7 @@ import luafix
 import c06_extract
 import c06_corpus
 import c06_gate
+import c06_load
 from common import Outcome, Scratch, tlc
 
 PID = "C06"
@@ -350,14 +358,18 @@ def run(tier: str) -> int:
     # second engine: the gate on the bridge as a state machine over HISTORIES of lookups (c06_gate.py);
     # its TLC runs work in the background while the reachability engine runs
     gate = c06_gate.Gate(o, tier)
+    # third engine: how page-supplied source comes to run (c06_load.py); its TLC runs work in the background too
+    load = c06_load.Load(o, tier)
     try:
-        gate.start()
-        return _run(o, tier, gate)
+        gate.start()   # forks (random histories) before any thread exists
+        load.start()   # threads only
+        return _run(o, tier, gate, load)
     finally:
         gate.close()
+        load.close()
 
 
-def _run(o, tier: str, gate) -> int:
+def _run(o, tier: str, gate, load) -> int:
     thorough = tier == "thorough"
     o.rule = (
         "V/G: one case per forbidden reference that TLC finds reachable in the live object graph "
@@ -368,7 +380,11 @@ def _run(o, tier: str, gate) -> int:
         "Gate engine: one case per HISTORY of attribute lookups (object x name x get/set x boundary same/invoke/page, "
         "every history up to the bound, enumerated by TLC from spec/SandboxGate.tla over the objects found in the live "
         "sandbox), each run in a fresh context; distinct by the sequence of lookups, non-trivial = more than one lookup "
-        "and not every answer a plain denial; plus seeded random longer histories replayed by TLC."
+        "and not every answer a plain denial; plus seeded random longer histories replayed by TLC. "
+        "Load engine: one case per (source shape [prefix x returned value x line ends x ending], history of loads of the module "
+        "[entry point x same invocation/later #invoke/later page]) enumerated by TLC from spec/SandboxReachLoad.tla, the module "
+        "text written into the page store with a probe body and loaded through the real entry points; distinct by shape + "
+        "history, non-trivial = the model lets the chunk run or the source does not compile as it stands."
     )
     o.assumptions = [
         "object-capability view: exploits of the C Lua VM / lupa memory safety are out of scope",
@@ -379,6 +395,8 @@ def _run(o, tier: str, gate) -> int:
         "forbidden = host io/os(beyond clock,date,difftime,time)/package/debug(beyond traceback)/_G/load*/setfenv,getfenv/"
         "lupa python table, contents of host *.lua files outside the library, every Python object that is not a "
         "plain function, a partial or an immutable value",
+        "load engine: which source shapes the Lua 5.1 compiler accepts is a modelled fact (loadstring skips neither a byte "
+        "order mark nor a '#' line; CR/CRLF end a line); a difference there while the code stays confined is DRIFT",
     ]
     # ---- M: design-level model
     r = tlc("MC_SandboxReach", "MC_SandboxReach_T.cfg" if thorough else "MC_SandboxReach.cfg", workers=16, timeout=1500, coverage=True)
@@ -403,8 +421,12 @@ def _run(o, tier: str, gate) -> int:
     if bad:
         raise RuntimeError(f"sandbox smoke test failed, the environment under test does not run benign modules: {bad[:2]}")
 
+    # ---- load engine: wait for its TLC runs and end its threads (nothing may fork while they live)
+    load.collect()
     # ---- gate engine: collect its TLC runs, run every generated history for real (before anything else forks)
     gate.finish()
+    # ---- load engine: every generated (shape, history) on the real loader
+    load.finish()
 
     with Scratch("c06-") as d:
         # ---- V: extraction from the live sandbox
@@ -484,6 +506,9 @@ def replay(path: str) -> int:
     if case["kind"] == "gate":
         print("history of lookups, re-executed in a fresh context:")
         return c06_gate.replay_case(case)
+    if case["kind"] == "load":
+        print("source shape", case["shape"], "loaded through", [c06_load.fmt_step(x) for x in case["steps"]], "in a fresh context:")
+        return c06_load.replay_case(case)
     with Scratch("c06r-") as d:
         if case["kind"] == "attack":
             a = next(a for a in c06_corpus.A if a["name"] == case["name"])
@@ -539,5 +564,6 @@ def selftest() -> int:
             ok &= reach3["gaps"] == ["fake"]
         luafix.close_ctx(ctx)
     ok &= c06_gate.selftest()
+    ok &= c06_load.selftest()
     print("selftest", "ok" if ok else "FAILED")
     return 0 if ok else 1
